@@ -279,3 +279,21 @@ func refParse(sp refSpec, opts Options, argv []string) refResult {
 	r.ok = true
 	return r
 }
+
+// refIsDecimal: optional sign followed by one or more decimal digits
+// (underscores are not accepted because the declared base is never 0).
+func refIsDecimal(s string) bool {
+	i := 0
+	if len(s) > 0 && (s[0] == '+' || s[0] == '-') {
+		i = 1
+	}
+	if i >= len(s) {
+		return false
+	}
+	for ; i < len(s); i++ {
+		if s[i] < '0' || s[i] > '9' {
+			return false
+		}
+	}
+	return true
+}
